@@ -12,6 +12,13 @@ HOOKS = {
 
 ENGINES = [
     {
+        "name": "E3-choice-tape",
+        "path": "mc/tape.py",
+        "serves_properties": ["C02"],
+        "kind_free_text": "stateless depth-first exploration of environment answers (which model / which reply order / which "
+        "PRNG draw) with prefix replay and divergence detection",
+    },
+    {
         "name": "E2-bfs",
         "path": "props/c01.py",
         "serves_properties": ["C01"],
@@ -45,6 +52,20 @@ CHECKS = [
         "design_ref": "DESIGN.md section 2, C01",
         "note": "Only the z3 backend runs offline; deeper trees rely on the translation being operator-by-operator and context "
         "free (small-scope argument). Trusted: mc/refsem.py (self-tested on hand-computed cases).",
+    },
+    {
+        "id": "C02",
+        "engine": "E3-choice-tape",
+        "category": "model_checking",
+        "technique": "stateless choice-tape DFS over every model choice of a scripted conforming backend, all solution sets x key subsets enumerated",
+        "text": "The real Solver.solve is executed for every subset S of the assignment space of 1-3 small variables, every "
+        "answer-key subset and every sequence of models a conforming backend may return (choice tape, no deviation bound); the "
+        "same cases go through the real z3 backend, through the sugar wire protocol with every model choice, and through the four "
+        "native-deduction backends with every reply-line order; oracle = exact common facts of S.",
+        "design_ref": "DESIGN.md section 2, C02",
+        "note": "Conforming-backend assumption (returns some model of all constraints given). External solvers are replaced by "
+        "the reference solver mc/sugar_model.py. More than 3 variables / domains wider than 3 values are covered by the argument "
+        "that the loop only compares per-variable values.",
     },
     {
         "id": "C13",
